@@ -1,5 +1,9 @@
 import MV.Lemmas.AStarOpt
 import MV.Lemmas.GoHeap
+import MV.Lemmas.Geometry
+import MV.Lemmas.GeometryReal
+import MV.Lemmas.GeometryOverlap
+import MV.Lemmas.Funnel
 /-!
 # C20 — path finding returns valid shortest paths; geometric predicates match geometry
 
@@ -17,9 +21,36 @@ All statements are about `MV.Model.AStar.find`, the transcription the oracle exe
   admissibility or `h goal = 0` is needed) the returned path is a cheapest walk.
 * `C20_optCost_shortest` — the reference value the judge uses (search with the zero heuristic) is
   the true minimum; `C20_judgeFind_ok` spells out what an `ok` verdict means.
+
+## `toolkit/geometry` over exact rationals (`MV.Model.Geometry`, coordinates in `ℚ`)
+
+* `C20_closest_on_segment`, `C20_closest_minimal` — `ClosestPoint` (after the two `fix:` commits)
+  lies on the closed segment and no point `a + s(b − a)`, `s ∈ [0,1]`, is closer (squared distance),
+  for every segment including the zero-length one.
+* `C20_onSegment_iff` — `IsPointOnSegment` (distance test idealised to equality, see the model) holds
+  exactly for the points `a + t(b − a)`, `t ∈ [0,1]`; `C20_sqrtSumEq_iff` justifies the idealisation:
+  the rational test is `√A + √B = √C` over the reals.
+* `C20_overlap_iff` — `CalcLineSegmentOverlap` (after the `fix:` commit) returns the intersection of
+  the two lexicographic intervals when it has more than one point and nothing otherwise;
+  `C20_overlap_param` — on a common line that is the intersection of the parameter intervals.
+* `C20_centroid_symmetric` — the vertex centroids (`CalcRectangleVerticesCentroid` after the `fix:`,
+  `CalcPolygonVerticesCentroid`) of a vertex list that is symmetric under the point reflection
+  through `c` are `c`; `C20_rect_centroid` is the axis-aligned rectangle instance.
+* `C20_circle_contains_iff` (and `C20_circle_intersect_iff`, `C20_circle_overlap_iff`) — the circle
+  predicates are the real-number statements `√(dx²+dy²) ≤ r`, `≤ r₁+r₂`, `< r₁+r₂`.
+
+Not proved (judged on the implementation instead, see `conf/C20.json`): ray-casting containment for
+arbitrary polygons, and everything about IEEE-754 rounding.
+
+## `navmesh` funnel (`MV.Model.Funnel`)
+
+* `C20_funnel_endpoints`, `C20_funnel_vertices_are_portal_ends` — whatever the portals are, a
+  produced path starts at the first portal's point, ends at the last portal's point, and every vertex is
+  an end point of some portal.  "Stays inside the walkable polygons" for `FindPath` is judged.
 -/
 namespace MV.Props.C20
 open MV.Model.AStar MV.Spec.AStar MV.Lemmas.AStar MV.Lemmas.GoHeap
+open MV.Model.Geometry MV.Spec.Geometry MV.Lemmas.Geometry MV.Model.Funnel MV.Lemmas.Funnel
 
 theorem C20_validPathB_iff (G : Graph) (s g : Nat) (p : Path) :
     validPathB G s g p = true ↔ ValidPath G s g p := validPathB_iff G s g p
@@ -179,5 +210,117 @@ example : find demo 3 0 (fun _ => 0) = .notFound := by
     | base => rfl
     | step _ hx ih => subst ih; simp [demo] at hx
   exact absurd (this 0 c hr) (by decide)
+
+
+/-! ## geometry -/
+
+theorem C20_closest_on_segment (a b p : Pt) : OnSeg a b (closestPoint a b p) := closest_on_segment a b p
+
+theorem C20_closest_minimal (a b p : Pt) (s : ℚ) (hs0 : 0 ≤ s) (hs1 : s ≤ 1) :
+    distSq p (closestPoint a b p) ≤ distSq p (lerp a b s) := closest_minimal a b p s hs0 hs1
+
+theorem C20_onSegment_iff (a b p : Pt) : isPointOnSegment a b p = true ↔ OnSeg a b p :=
+  ⟨onSeg_of_onSegment a b p, onSegment_of_onSeg a b p⟩
+
+/-- the brute-force decision used by the oracle's spec role decides the same predicate -/
+theorem C20_onSegB_iff (a b p : Pt) : onSegB a b p = isPointOnSegment a b p := by
+  have h1 := C20_onSegment_iff a b p
+  cases hb : onSegB a b p with
+  | true =>
+    symm; rw [h1]
+    unfold onSegB at hb
+    by_cases hds : distSq a b = 0
+    · simp only [hds, if_true, decide_eq_true_eq] at hb
+      subst hb; exact ⟨0, le_refl _, by norm_num, by simp [lerp]⟩
+    · simp only [hds, if_false, Bool.and_eq_true, decide_eq_true_eq] at hb
+      obtain ⟨⟨hc, h0⟩, h1'⟩ := hb
+      have hpos : 0 < distSq a b := lt_of_le_of_ne (distSq_nonneg a b) (Ne.symm hds)
+      refine ⟨dot a b p / distSq a b, div_nonneg h0 hpos.le, (div_le_one hpos).2 h1', ?_⟩
+      have hdsv : distSq a b = (b.x - a.x) * (b.x - a.x) + (b.y - a.y) * (b.y - a.y) := by simp [distSq, Model.Geometry.sq]
+      cases p with
+      | mk px py =>
+        simp only [lerp, Pt.mk.injEq, dot, areaTwice] at *
+        constructor
+        · field_simp; rw [hdsv]; linear_combination (b.y - a.y) * hc
+        · field_simp; rw [hdsv]; linear_combination (-(b.x - a.x)) * hc
+  | false =>
+    symm
+    cases hi : isPointOnSegment a b p with
+    | false => rfl
+    | true =>
+      obtain ⟨t, h0, h1', rfl⟩ := h1.1 hi
+      exfalso
+      unfold onSegB at hb
+      by_cases hds : distSq a b = 0
+      · have := distSq_eq_zero a b hds; subst this
+        simp [hds, lerp] at hb
+      · simp only [hds, if_false] at hb
+        have e1 : areaTwice a b (lerp a b t) = 0 := by simp only [areaTwice, lerp]; ring
+        have e2 : dot a b (lerp a b t) = t * distSq a b := by simp only [dot, lerp, distSq, Model.Geometry.sq]; ring
+        have hpos := distSq_nonneg a b
+        rw [e1, e2] at hb
+        have : 0 ≤ t * distSq a b := mul_nonneg h0 hpos
+        have : t * distSq a b ≤ distSq a b := by nlinarith
+        simp_all
+
+theorem C20_sqrtSumEq_iff (A B C : ℚ) (hA : 0 ≤ A) (hB : 0 ≤ B) (hC : 0 ≤ C) :
+    sqrtSumEq A B C = true ↔ Real.sqrt (A : ℝ) + Real.sqrt (B : ℝ) = Real.sqrt (C : ℝ) := sqrtSumEq_iff A B C hA hB hC
+
+theorem C20_overlap_iff (a b c d : Pt) : segOverlap a b c d = overlapSpec a b c d := segOverlap_eq a b c d
+
+theorem C20_overlap_param (o dir : Pt) (hd : lexLt ⟨0, 0⟩ dir) (s t : ℚ) :
+    lexLt ⟨o.x + s * dir.x, o.y + s * dir.y⟩ ⟨o.x + t * dir.x, o.y + t * dir.y⟩ ↔ s < t := lexLt_param o dir hd s t
+
+theorem C20_centroid_symmetric (c : Pt) (l : List Pt) (hne : l ≠ []) (hs : CentrallySymmetric c l) :
+    rectCentroid l = some c ∧ verticesCentroid l = some c := by
+  have hlen : l.length ≠ 0 := fun h => hne (List.length_eq_zero_iff.1 h)
+  obtain ⟨hx, hy⟩ := centroid_of_symmetric c l hne hs
+  simp [rectCentroid, verticesCentroid, hlen, hx, hy]
+
+theorem C20_rect_centroid (x0 y0 x1 y1 : ℚ) :
+    rectCentroid [⟨x0, y0⟩, ⟨x1, y0⟩, ⟨x1, y1⟩, ⟨x0, y1⟩] = some ⟨(x0 + x1) / 2, (y0 + y1) / 2⟩ := by
+  simp only [rectCentroid, sumX, sumY, List.length_cons, List.length_nil, List.map_cons, List.map_nil, List.sum_cons,
+    List.sum_nil]
+  norm_num
+  constructor <;> ring
+
+theorem C20_circle_contains_iff (c : Pt) (r : ℚ) (p : Pt) :
+    circleContains c r p = true ↔ Real.sqrt (((p.x - c.x) ^ 2 + (p.y - c.y) ^ 2 : ℚ) : ℝ) ≤ (r : ℝ) :=
+  circleContains_iff c r p
+
+theorem C20_circle_intersect_iff (c1 : Pt) (r1 : ℚ) (c2 : Pt) (r2 : ℚ) :
+    circleIntersect c1 r1 c2 r2 = true ↔ Real.sqrt ((distSq c2 c1 : ℚ) : ℝ) ≤ ((r1 + r2 : ℚ) : ℝ) := sqrtLe_iff _ _
+
+theorem C20_circle_overlap_iff (c1 : Pt) (r1 : ℚ) (c2 : Pt) (r2 : ℚ) :
+    circleOverlap c1 r1 c2 r2 = true ↔ Real.sqrt ((distSq c2 c1 : ℚ) : ℝ) < ((r1 + r2 : ℚ) : ℝ) := sqrtLt_iff _ _
+
+/-! non-vacuity: the witness of the repaired precedence defect, a boundary point of a circle, nested segments -/
+example : closestPoint ⟨0, 0⟩ ⟨10, 0⟩ ⟨5, 5⟩ = ⟨5, 0⟩ := by
+  norm_num [closestPoint, distSq, Model.Geometry.sq, clamp]
+example : closestPoint ⟨1, 1⟩ ⟨1, 1⟩ ⟨5, 5⟩ = ⟨1, 1⟩ := by
+  norm_num [closestPoint, distSq, Model.Geometry.sq]
+example : circleContains ⟨0, 0⟩ 5 ⟨3, 4⟩ = true ∧ circleOverlap ⟨0, 0⟩ 2 ⟨5, 0⟩ 3 = false := by
+  norm_num [circleContains, circleOverlap, sqrtLe, sqrtLt, distSq, Model.Geometry.sq]
+example : segOverlap ⟨0, 0⟩ ⟨3, 0⟩ ⟨1, 0⟩ ⟨2, 0⟩ = some (⟨1, 0⟩, ⟨2, 0⟩) ∧ segOverlap ⟨0, 0⟩ ⟨1, 0⟩ ⟨2, 0⟩ ⟨3, 0⟩ = none := by
+  rw [C20_overlap_iff, C20_overlap_iff]
+  norm_num [overlapSpec, lexMin, lexMax, lexLt]
+example : OnSeg ⟨0, 0⟩ ⟨10, 10⟩ ⟨5, 5⟩ ∧ isPointOnSegment ⟨0, 0⟩ ⟨10, 10⟩ ⟨5, 5⟩ = true := by
+  have h : OnSeg ⟨0, 0⟩ ⟨10, 10⟩ ⟨5, 5⟩ := ⟨1 / 2, by norm_num, by norm_num, by norm_num [lerp]⟩
+  exact ⟨h, (C20_onSegment_iff _ _ _).2 h⟩
+
+/-! ## funnel -/
+
+theorem C20_funnel_endpoints (portals : List (Pt × Pt)) (path : List Pt) (h : stringPull portals = some path) :
+    (∃ p0, portals.head? = some p0 ∧ path.head? = some p0.1) ∧
+    (∃ pl, portals.getLast? = some pl ∧ path.getLast? = some pl.1) :=
+  ⟨(stringPull_spec portals path h).1, (stringPull_spec portals path h).2.1⟩
+
+theorem C20_funnel_vertices_are_portal_ends (portals : List (Pt × Pt)) (path : List Pt)
+    (h : stringPull portals = some path) : ∀ v ∈ path, ∃ pr ∈ portals, v = pr.1 ∨ v = pr.2 :=
+  (stringPull_spec portals path h).2.2
+
+/-- non-vacuity: a one-portal corridor yields the single point; the theorems then give its ends -/
+example : stringPull [((⟨1, 1⟩ : Pt), (⟨1, 1⟩ : Pt))] = some [⟨1, 1⟩] := by
+  simp [stringPull, Model.Funnel.loop]
 
 end MV.Props.C20
